@@ -212,7 +212,8 @@ def _case(draw: Any, args: dict) -> dict:
         for _ in range(draw(st.integers(0, 2))):
             decls.append(draw(_enum(scope)))
         perm = draw(st.permutations(range(len(decls))))
-        modules.append(gt.module([pkgname, mname], [decls[i] for i in perm], doc=draw(doc_texts()) if draw(st.booleans()) else None))
+        sub = draw(st.sampled_from([[], [], ["sub_pkg"], ["sub_pkg", "deeper_one"], ["Camel"]]))
+        modules.append(gt.module([pkgname, *sub, mname], [decls[i] for i in perm], doc=draw(doc_texts()) if draw(st.booleans()) else None))
     return {"pkg": gt.package(pkgname, modules), "options": {"nc": draw(st.booleans()), "docstyle": style}}
 
 
